@@ -119,9 +119,14 @@ ProjEq(a, b) ==
   /\ ExSame(a.ex, b.ex)   \* values are preserved exactly, not just up to the snapping tolerance
 
 \* [accept : must the call return?, proj]
+\* Known deviation "RepeatedFluentArg" at the goal: the fluent terms of numeric
+\* goal conditions lose repeated arguments ((h o6 o6) is stored as (h o6)).
+CollapseCmps(cs) == {[c EXCEPT !.l = GroundExpr(c.l, <<>>, TRUE), !.r = GroundExpr(c.r, <<>>, TRUE)] : c \in cs}
 ParseProblem_Exp(D, tree, dv) ==
   LET P == ProblemOfTree(tree)
-  IN  [accept |-> WFProblemD(D, P, dv), proj |-> ProblemProj(P),
+      pj == ProblemProj(P)
+  IN  [accept |-> WFProblemD(D, P, dv),
+       proj |-> IF "RepeatedFluentArg" \in dv THEN [pj EXCEPT !.gcmps = CollapseCmps(pj.gcmps)] ELSE pj,
        \* under "GoalFluentUnchecked" an accepted problem whose only defect is an
        \* ill-formed goal fluent has no specified goal conditions
        goalsFixed |-> WFProblemD(D, P, {}),
